@@ -996,6 +996,127 @@ fn cmd_c06(args: &std::collections::HashMap<String, String>) {
     rep.print();
 }
 
+// ------------------------------------------------------------------ C08
+
+/// expand a run-length byte string [[count, byte], ...]
+fn unrle(v: &Value) -> Vec<u8> {
+    let mut out = Vec::new();
+    for p in j_arr(v) {
+        let (n, b) = (j_usize(&p[0]), j_usize(&p[1]) as u8);
+        out.extend(std::iter::repeat(b).take(n));
+    }
+    out
+}
+
+fn emit_trace(tr: &mut NdjsonWriter, ts: &str, bytes: &[u8], id: usize, run: &TokRun) {
+    tr.emit(&json!({"ev":"reset","ts":ts,"odd":"Accept","mode":"eager","bytes":bytes_json(bytes),"id":id}));
+    for t in &run.toks {
+        tr.emit(&json!({"ev":"tok","t":t["t"],"tag":t["tag"],"vr":t["vr"],"len":t["len"],"pos":t["pos"],"cons":t["cons"]}));
+    }
+    tr.emit(&json!({"ev":"end","res":run.end,"cons":run.cons,"pos":run.pos}));
+}
+
+fn cmd_c08(args: &std::collections::HashMap<String, String>) {
+    let cases = read_ndjson(args.get("cases").expect("--cases"));
+    let selftest = args.get("selftest").cloned().unwrap_or_default();
+    let out_dir = args.get("out").cloned().expect("--out");
+    std::fs::create_dir_all(&out_dir).unwrap();
+    let trace_path = format!("{out_dir}/trace_c08.ndjson");
+    let mut tr = NdjsonWriter::create(&trace_path);
+    let mut traced = 0usize;
+    let mut rep = Report::new();
+    let mut cls = Classes::new();
+    let (mut n_runs, mut n_unamb, mut n_amb, mut amb_misread, mut nontrivial) = (0usize, 0usize, 0usize, 0usize, 0usize);
+    let mut locks: std::collections::BTreeMap<String, usize> = Default::default();
+    for (ci, c) in cases.iter().enumerate() {
+        if c.get("enc").is_none() {
+            continue;
+        }
+        rep.cases += 1;
+        let enc = j_str(&c["enc"]);
+        let amb = c["amb"].as_bool().unwrap();
+        let bytes = unrle(&c["rlebytes"]);
+        let total = j_usize(&c["total"]) as u64;
+        assert_eq!(bytes.len() as u64, total);
+        let exp: Vec<Value> = j_arr(&c["toks"])
+            .iter()
+            .map(|t| {
+                let mut t = t.clone();
+                if t["rle"].as_bool().unwrap_or(false) {
+                    t["val"] = bytes_json(&unrle(&t["val"]));
+                }
+                t
+            })
+            .collect();
+        let ctxs = format!("[first element: dictionary entry {}, length {}, after a stray item delimiter: {}]",
+            j_str(&c["entry"]), j_str(&c["lenclass"]), c["stray"]);
+        // the regular decoder of the real encoding must report the prescribed tokens (sanity of the expectation)
+        let reg = run_reader(&bytes, enc, "Accept", "eager", "Preserved", false, exp.len() + 50);
+        n_runs += 1;
+        if let Some(d) = cmp_toks(&exp, &reg, "eof", total, true, true) {
+            cls.add(format!("regular {enc} decoder: {} {ctxs}", j_str(&d["what"])), json!({"case":ci,"first":c["first"],"diff":d,"end":reg.end,"err":reg.err}));
+            continue;
+        }
+        // token logs of short unambiguous cases go to Trace_Reader: the regular reader under
+        // its transfer syntax, the flexible reader under the adaptive lock ("ADAPT")
+        let traceable = !amb && total < 600;
+        if traceable {
+            traced += 1;
+            emit_trace(&mut tr, enc, &bytes, ci, &reg);
+        }
+        if amb {
+            n_amb += 1;
+        } else {
+            n_unamb += 1;
+            nontrivial += 1;
+            *locks.entry(format!("{enc} {}", j_str(&c["lenclass"]))).or_insert(0) += 1;
+        }
+        // flexible decoding, whatever transfer syntax is declared
+        for declared in ["EVRLE", "IVRLE"] {
+            let mut run = run_reader(&bytes, declared, "Accept", "eager", "Preserved", true, exp.len() + 50);
+            n_runs += 1;
+            for t in run.toks.iter_mut() {
+                let c = t["cons"].clone();
+                t["pos"] = c;
+            }
+            if selftest == "tok" && ci % 9 == 0 {
+                if let Some(t) = run.toks.get_mut(0) {
+                    t["len"] = json!(12345);
+                }
+            }
+            let diff = cmp_toks(&exp, &run, "eof", total, true, true);
+            if traceable && (declared == "EVRLE" || diff.is_some()) {
+                traced += 1;
+                run.pos = run.cons;
+                emit_trace(&mut tr, "ADAPT", &bytes, ci, &run);
+            }
+            if amb {
+                if diff.is_some() {
+                    amb_misread += 1;
+                }
+                continue;
+            }
+            if let Some(d) = diff {
+                cls.add(format!("flexible decoding (declared {declared}) of {enc} data differs from the {enc} decoder: {} {ctxs}", j_str(&d["what"])),
+                    json!({"case":ci,"enc":enc,"declared":declared,"first":c["first"],"diff":d,"end":run.end,"err":run.err,
+                           "observed_head": run.toks.iter().take(4).map(|t| { let mut t = t.clone(); t.as_object_mut().unwrap().remove("val"); t }).collect::<Vec<_>>()}));
+            }
+        }
+    }
+    cls.into_report(&mut rep);
+    rep.extra.insert("reader_runs".into(), json!(n_runs));
+    rep.extra.insert("unambiguous_cases".into(), json!(n_unamb));
+    rep.extra.insert("ambiguous_cases".into(), json!(n_amb));
+    rep.extra.insert("ambiguous_runs_misread".into(), json!(amb_misread));
+    rep.extra.insert("nontrivial".into(), json!(nontrivial));
+    rep.extra.insert("unambiguous_by_class".into(), json!(locks));
+    let events = tr.finish();
+    rep.extra.insert("traced_cases".into(), json!(traced));
+    rep.extra.insert("trace_events".into(), json!(events));
+    rep.extra.insert("trace_path".into(), json!(trace_path));
+    rep.print();
+}
+
 // ------------------------------------------------------------------ dictionary facts
 
 fn cmd_dict(args: &std::collections::HashMap<String, String>) {
@@ -1021,6 +1142,21 @@ fn cmd_dict(args: &std::collections::HashMap<String, String>) {
             facts.push(json!({"tag":[tag.0, tag.1],"entry":v,"spec":f[1]}));
         }
     }
+    // the VR an implicit VR decoder assigns (dictionary entry relaxed; Pixel Data is OW)
+    for c in &cases {
+        let Some(tags) = c.get("implicitvr") else { continue };
+        for f in j_arr(tags) {
+            let t = &f[0];
+            let tag = Tag(j_usize(&t[0]) as u16, j_usize(&t[1]) as u16);
+            let v = if tag == Tag(0x7FE0, 0x0010) {
+                "OW".to_string()
+            } else {
+                StandardDataDictionary.by_tag(tag).map(|e| e.vr().relaxed().to_string().to_string()).unwrap_or("UN".into())
+            };
+            rep.cases += 1;
+            facts.push(json!({"tag":[tag.0, tag.1],"entry":v,"spec":f[1],"kind":"implicit"}));
+        }
+    }
     rep.extra.insert("facts".into(), Value::Array(facts));
     rep.print();
 }
@@ -1033,6 +1169,7 @@ fn main() {
         "dict" => cmd_dict(&args),
         "c07" => cmd_c07(&args),
         "c06" => cmd_c06(&args),
+        "c08" => cmd_c08(&args),
         other => {
             eprintln!("unknown mode {other}");
             std::process::exit(2);
